@@ -180,7 +180,9 @@ func runC19(c *Ctx) {
 				bad = "a cell is painted on a path on which x <= " + d.w.Name() + " has not been tested"
 			case !hi(yP, d.h):
 				bad = "a cell is painted on a path on which y <= " + d.h.Name() + " has not been tested: rows below the grid are written (past the framebuffer)"
-			case d.font && !hasFact(facts, func(f Fact) bool { return isNilFact(f, token.NEQ, func(v ssa.Value) bool { return isLoadOfField(v, fontF) }) }):
+			case d.font && !hasFact(facts, func(f Fact) bool {
+				return isNilFact(f, token.NEQ, func(v ssa.Value) bool { return isLoadOfField(v, fontF) })
+			}):
 				bad = "a glyph is painted without testing that a font is set"
 			}
 		}
@@ -202,14 +204,18 @@ func runC19(c *Ctx) {
 			}
 			nst++
 			facts := gs.FactsAt(n)
-			nz := hasFact(facts, func(f Fact) bool { return cmpMatch(f, token.NEQ, func(v ssa.Value) bool { return v == ssa.Value(lP) }, isZeroConst) })
+			nz := hasFact(facts, func(f Fact) bool {
+				return cmpMatch(f, token.NEQ, func(v ssa.Value) bool { return v == ssa.Value(lP) }, isZeroConst)
+			})
 			le := hasFact(facts, func(f Fact) bool {
 				return cmpMatch(f, token.LEQ, func(v ssa.Value) bool { return v == ssa.Value(lP) }, func(v ssa.Value) bool { return isLoadOfField(v, d.h) })
 			})
 			if !nz || !le {
 				bad = "rows are copied for a line count that has not been tested to lie in 1..height (the copy offset leaves the framebuffer)"
 			}
-			if d.font && !hasFact(facts, func(f Fact) bool { return isNilFact(f, token.NEQ, func(v ssa.Value) bool { return isLoadOfField(v, fontF) }) }) {
+			if d.font && !hasFact(facts, func(f Fact) bool {
+				return isNilFact(f, token.NEQ, func(v ssa.Value) bool { return isLoadOfField(v, fontF) })
+			}) {
 				bad = "rows are copied without testing that a font is set"
 			}
 		}
